@@ -776,6 +776,10 @@ def all_cases(tier, seed):
             lst.append((label, "client", ("menu_server_adv", meta, fn)))
         for label, meta, fn in client_adv_cases():
             lst.append((label, "server", ("menu_client_adv", meta, fn)))
+        # every menu case again with a second input arriving before the victim's first transmit
+        for label, role, (kind, meta, fn) in list(lst):
+            for second in ("same", "legal"):
+                lst.append(("%s|then_%s_held" % (label, second), role, (kind, dict(meta, second=second), fn)))
         for label, role, params in split_cases(tier, seed):
             lst.append((label, role, ("split", params, None)))
         _CASES[key] = lst
@@ -798,9 +802,12 @@ def execute(case):
     label, role, (kind, meta, fn) = case
     if kind == "split":
         return run_split(meta)
+    second = meta.get("second")
     if kind == "menu_server_adv":
         adv = Q.QuicServerAdversary(cfg=meta["cfg"], chain=meta["chain"])
         adv.prefix(meta["prefix"])
+        if second:
+            return _held(adv, fn, second, next((x for x in ("SH", "EE", "CERT", "CV", "FIN") if x not in meta["prefix"]), None))
         fn(adv)
         return adv, False
     adv = Q.QuicClientAdversary(cfg=meta["cfg"], server_cls=_ReqCertServer if meta["reqcert"] else None)
@@ -812,7 +819,40 @@ def execute(case):
         adv.legal("finished")
         if adv.victim.closing or not adv.victim.handshake_completed:
             raise core.HarnessError("server victim did not complete the legal handshake")
+    if second:
+        return _held(adv, fn, second, "finished" if meta["stage"] == "flight" and not meta["reqcert"] else None)
     fn(adv)
+    return adv, False
+
+
+class _SecondNotBuilt(Exception):
+    pass
+
+
+def _held(adv, fn, second, legal_next):
+    """The case's input, then - BEFORE the victim's caller has transmitted anything (datagrams arriving back to back) -
+    a second input in a packet of its own: the same input again, or the legal message of that stage."""
+    adv.victim.hold = True
+    try:
+        fn(adv)
+        try:
+            if second == "same":
+                fn(adv)
+            elif legal_next is not None:
+                adv.legal(legal_next)
+            else:
+                raise _SecondNotBuilt()
+        except core.HarnessError:
+            raise _SecondNotBuilt()
+        except _SecondNotBuilt:
+            raise
+        except Exception as e:  # noqa
+            if classify(e)[1] is None:
+                raise _SecondNotBuilt()   # the adversary's own bookkeeping could not produce a second message
+            raise
+    finally:
+        adv.victim.hold = False
+    adv.victim.pump()
     return adv, False
 
 
@@ -821,7 +861,10 @@ def run_case(case):
     label, role, _ = case
     adv = None
     try:
-        adv, expect_done = execute(case)
+        try:
+            adv, expect_done = execute(case)
+        except _SecondNotBuilt:
+            return {"outcome": "second_not_built", "code": None, "viol": None}
         v = adv.victim
         closed_before = v.closing
         v.drive_to_end()
@@ -841,8 +884,11 @@ def run_case(case):
             raise
         # re-derive on a fresh endpoint before reporting
         try:
-            adv2, _ = execute(case)
-            adv2.victim.drive_to_end()
+            try:
+                adv2, _ = execute(case)
+                adv2.victim.drive_to_end()
+            except _SecondNotBuilt:
+                pass
             again = None
         except core.HarnessError:
             raise
@@ -897,12 +943,16 @@ def run_tls(ctx, workers=None):
         for idx, r in chunk:
             label, role, (kind, _, _) = cases[idx]
             part = "tls_split" if kind == "split" else ("tls_client_victim" if role == "client" else "tls_server_victim")
+            if "_held" in label:
+                part += "_two_inputs_before_transmit"
             st = stats.setdefault(part, {"n": 0, "closed": {}, "open": 0, "completed": 0, "exceptions": 0})
             st["n"] += 1
             if r["outcome"] == "closed":
                 st["closed"][str(r["code"])] = st["closed"].get(str(r["code"]), 0) + 1
             elif r["outcome"] in ("open", "completed"):
                 st[r["outcome"]] += 1
+            elif r["outcome"] == "second_not_built":
+                st["second_not_built"] = st.get("second_not_built", 0) + 1
             else:
                 st["exceptions"] += 1
             outcomes.add((part, r["outcome"], str(r["code"])))
@@ -912,7 +962,7 @@ def run_tls(ctx, workers=None):
     for part, st in sorted(stats.items()):
         ctx.part(part, evaluations=st["n"], transitions=st["n"], states=st["n"],
                  closed=sum(st["closed"].values()), stayed_open=st["open"], completed=st["completed"],
-                 raised=st["exceptions"], close_codes=st["closed"],
+                 raised=st["exceptions"], close_codes=st["closed"], second_not_built=st.get("second_not_built", 0),
                  distinct_nontrivial=len(st["closed"]) + bool(st["open"]) + bool(st["completed"]))
     if len(outcomes) < 6:
         raise core.HarnessError("tls part vacuous: %r" % sorted(outcomes))
